@@ -1,31 +1,53 @@
 #!/usr/bin/env python3
 """Re-run every kept seeded change against the checks that are expected to catch
 it (the targeted property plus everything recorded in meta.json) and report
-changes that are no longer caught. Usage: tools/seeded_regress.py [--tier quick]"""
+changes that are no longer caught; the outcome is recorded in seeded/REGRESS.json
+(read by tools/seedtable.py).
+Usage: tools/seeded_regress.py [--tier quick] [--jobs N] [Cnn ...]"""
 import glob, json, os, subprocess, sys
+from concurrent.futures import ThreadPoolExecutor
 VERIF = os.path.dirname(os.path.dirname(os.path.abspath(__file__)))
 tier = "quick"
 if "--tier" in sys.argv:
     tier = sys.argv[sys.argv.index("--tier") + 1]
+jobs = 1
+if "--jobs" in sys.argv:
+    jobs = int(sys.argv[sys.argv.index("--jobs") + 1])
 only = [a for a in sys.argv[1:] if a.startswith("C")]
+RECORD = os.path.join(VERIF, "seeded", "REGRESS.json")
+record = json.load(open(RECORD)) if os.path.exists(RECORD) else {}
 missed = []
-for d in sorted(glob.glob(os.path.join(VERIF, "seeded", "*"))):
+
+
+def one(d):
     m = json.load(open(os.path.join(d, "meta.json")))
-    if only and not any(m["id"].startswith(o) for o in only):
-        continue
-    props = sorted(set([m["breaks_property"]] + list(m.get("caught_by") or [])))
+    prev = record.get(m["id"], {}).get("caught_by", [])
+    props = sorted(set([m["breaks_property"]] + list(m.get("caught_by") or []) + prev))
     r = subprocess.run([sys.executable, os.path.join(VERIF, "tools", "try_mutant.py"),
                         os.path.join(d, "patch.diff"), "--props", ",".join(props),
                         "--tier", tier, "--skip-pinned"], capture_output=True, text=True)
     try:
-        res = json.loads(r.stdout)
+        res = json.loads(r.stdout[r.stdout.index("{"):])
     except Exception:
-        print(m["id"], "ERROR", r.stdout[-300:], r.stderr[-300:]); missed.append(m["id"]); continue
-    caught = res.get("caught_by", [])
-    own = m["breaks_property"] in caught
-    print("%-10s targeted=%s caught_by=%s%s" % (m["id"], m["breaks_property"], caught,
-          "" if caught else "   <-- MISSED"), flush=True)
-    if not caught:
-        missed.append(m["id"])
+        return m, None, r.stdout[-300:] + r.stderr[-300:]
+    return m, res.get("caught_by", []), props
+
+
+dirs = [d for d in sorted(glob.glob(os.path.join(VERIF, "seeded", "C*")))
+        if os.path.isdir(d) and (not only or any(os.path.basename(d).startswith(o)
+                                                  for o in only))]
+with ThreadPoolExecutor(max_workers=jobs) as ex:
+    for m, caught, info in ex.map(one, dirs):
+        if caught is None:
+            print(m["id"], "ERROR", info); missed.append(m["id"]); continue
+        own = m["breaks_property"] in caught
+        print("%-10s targeted=%s caught_by=%s%s%s" % (
+            m["id"], m["breaks_property"], caught, "" if caught else "   <-- MISSED",
+            "" if own or not caught else "   (not by its own property)"), flush=True)
+        record[m["id"]] = {"caught_by": caught, "checks_run": info, "tier": tier}
+        if not caught:
+            missed.append(m["id"])
+with open(RECORD, "w") as fh:
+    json.dump(record, fh, indent=1, sort_keys=True)
 print("missed:", missed)
 sys.exit(1 if missed else 0)
